@@ -6,6 +6,7 @@ C01 - a run never aborts.  Decides (DESIGN.md section 3, C01):
   R01.4 while loops without an exit of their own make progress (narrow non-termination rule; sa/progress.py)
   R01.5 docstrings are made UTF-8 encodable where they enter the model (lone surrogates)
   R01.6 the class of an object looked up by a source-derived name is tested, not asserted
+  R01.7 module typestate: UNPROCESSED -> PROCESSING is only taken under a test of the state made after the last nested processing call
 Does not decide: termination in general (recursion, for loops over growing lists, loops that leave through break), exceptions outside the tables, docutils/twisted internals.
 """
 from __future__ import annotations
@@ -406,6 +407,44 @@ def run(repo: Repo, chk: Check, thorough: bool = False) -> None:
                    f'the class of `{look}` is asserted, not tested: when the name taken from the analysed source resolves to another kind of object the '
                    'AssertionError escapes and the run aborts', repo.loc(f.mod, a))
     chk.stats['asserts_on_name_lookups'] = n_as
+
+    # ---- R01.7 module typestate
+    # processModule leaves UNPROCESSED exactly once per module (`mod.state = PROCESSING`, then `unprocessed_modules.remove(mod)`: a second
+    # removal raises ValueError and aborts the run).  Its entry asserts the state; a nested processing call made before the transition (the package
+    # first) can process - or fail to parse - the very module, so the state has to be tested AGAIN after that call, and only `UNPROCESSED` may go on:
+    # a module that does not parse stays PROCESSING for ever.
+    pm = repo.func('pydoctor.model.System.processModule')
+    cfpm = CFG(pm)
+    modp = pm.params()[1].arg
+    trans = [n for n in pm.walk() if isinstance(n, ast.Assign) and any(isinstance(t, ast.Attribute) and t.attr == 'state' and isinstance(t.value, ast.Name) and
+                                                                      t.value.id == modp for t in n.targets) and norm(n.value).endswith('PROCESSING')]
+    if not trans:
+        raise AnalysisError('R01.7: the UNPROCESSED -> PROCESSING transition of System.processModule was not found')
+    nested = [c for c in calls_in(pm) if call_name(c) in ('processModule', 'getProcessedModule', 'process') and
+              id(cfpm.stmt_of(trans[0])) in cfpm.reachable(cfpm.stmt_of(c), no_exc=True) and cfpm.stmt_of(c) is not cfpm.stmt_of(trans[0])]
+    def _is_unprocessed(t: ast.AST, pol: bool) -> bool:
+        if isinstance(t, ast.Compare) and len(t.ops) == 1 and norm(t.left) == f'{modp}.state' and norm(t.comparators[0]).endswith('UNPROCESSED'):
+            return (isinstance(t.ops[0], (ast.Is, ast.Eq)) and pol) or (isinstance(t.ops[0], (ast.IsNot, ast.NotEq)) and not pol)
+        if isinstance(t, ast.UnaryOp) and isinstance(t.op, ast.Not):
+            return _is_unprocessed(t.operand, not pol)
+        if isinstance(t, ast.BoolOp):
+            if isinstance(t.op, ast.And) and pol:
+                return any(_is_unprocessed(x, True) for x in t.values)
+            if isinstance(t.op, ast.Or) and not pol:
+                return any(_is_unprocessed(x, False) for x in t.values)
+        return False
+    for c in nested:
+        safe_edges = [(nid, id(t_), k) for nid, edges in cfpm.succ.items() for (t_, l, k) in edges if l is not None and _is_unprocessed(l[0], l[1])]
+        leak = id(cfpm.stmt_of(trans[0])) in cfpm.reachable(cfpm.stmt_of(c), avoid_edges=safe_edges, no_exc=True)
+        chk.ob('R01.7', f'pydoctor.model.System.processModule :: the state is tested again after the nested `{call_name(c)}` call', not leak,
+               f'every path from `{norm(c)[:50]}` to the transition passes a test that establishes {modp}.state is UNPROCESSED' if not leak else
+               f'after `{norm(c)[:50]}` the transition to PROCESSING can be reached without a test that the module is still UNPROCESSED: a module that its '
+               'package imported and that does not parse (state PROCESSING for ever) is taken out of unprocessed_modules a second time - ValueError, the '
+               'run aborts before any page is written', repo.loc(pm.mod, c))
+    chk.stats['nested_processing_calls_before_transition'] = len(nested)
+    if len(nested) < 1:
+        raise AnalysisError('R01.7: no nested processing call precedes the state transition in processModule (1 confirmed: the package, since F64)')
+    chk.require('R01.7', 1)
 
 
 def _role(f: Func, c: ast.Call) -> str:
